@@ -1,4 +1,5 @@
 import Driver.Common
+import GoSSE.Spec.Sessions
 import GoSSE.Spec.EventStream
 import GoSSE.Spec.HttpLog
 /-!
@@ -271,10 +272,40 @@ def serve (args : List String) : String × String :=
     | _, _, _, _, _ => ("bad-args", "bad-args")
   | _ => ("bad-args", "bad-args")
 
+/-- `E2E …` (C05): the observation carries `## pub=<ids> ## got=<ids>` — the event IDs in the order Joe
+stored them and the IDs of the events the client's callbacks saw over all its sessions. The specification
+(`Spec/Sessions`): the client, once caught up, has seen the first event it received followed by exactly
+the log after it — each event once, in order. `M` restates which session compositions explain it: any
+split of `got.tail` into per-session prefixes is a run of `playSessions`. -/
+def e2e (args : List String) : String × String :=
+  match args.getLast? with
+  | some g =>
+    if !g.startsWith "GO=" then ("need-observation", "need-observation") else
+    let parts := (g.drop 3).toString.splitOn " ## "
+    let field (k : String) : Option (List String) :=
+      (parts.find? (·.startsWith k)).map fun x =>
+        let v := (x.drop k.length).toString
+        if v == "-" then [] else v.splitOn ","
+    match field "pub=", field "got=" with
+    | some pub, some got =>
+      match got with
+      | [] => ("no-events", "BAD:nothing-received")
+      | first :: rest =>
+        let want := GoSSE.Proofs.afterG pub first
+        let viaSessions := (GoSSE.Proofs.playSessions pub first [rest.length]).1
+        let m := if viaSessions == rest then "explained" else "unexplained"
+        if !pub.contains first then (m, "BAD:first-event-never-published")
+        else if rest == want then (m, "ok")
+        else if rest.length < want.length && rest == want.take rest.length then (m, "BAD:events-lost-at-the-end")
+        else (m, s!"BAD:sequence-differs-from-the-log-after-the-first-event")
+    | _, _ => ("no-observation", "no-observation")
+  | none => ("bad-args", "bad-args")
+
 def handle (op : String) (args : List String) : Option (String × String) :=
   match op with
   | "SESS" => some (sess args)
   | "SERVE" => some (serve args)
+  | "E2E" => some (e2e args)
   | _ => none
 
 end Driver.ServerD
